@@ -3,6 +3,8 @@
 package eni
 
 import (
+	podENITypes "github.com/AliyunContainerService/terway/pkg/apis/network.alibabacloud.com/v1beta1"
+	"github.com/AliyunContainerService/terway/types/daemon"
 	"k8s.io/client-go/tools/record"
 	"sigs.k8s.io/controller-runtime/pkg/client"
 	"sigs.k8s.io/controller-runtime/pkg/reconcile"
@@ -17,4 +19,9 @@ func VerifNewNodeReconcile(c client.Client, rec record.EventRecorder, nodeName s
 	r := &nodeReconcile{client: c, record: rec, nodeName: nodeName}
 	r.once.Do(func() {})
 	return r
+}
+
+// VerifNewRemoteIPResource builds the PodENI allocation result whose ToRPC the harness checks.
+func VerifNewRemoteIPResource(trunk daemon.ENI, podENI podENITypes.PodENI) *RemoteIPResource {
+	return &RemoteIPResource{trunkENI: trunk, podENI: podENI}
 }
